@@ -5,6 +5,7 @@ import z3
 from pyvc.verify import Unit, Outcome
 from pyvc.values import SInt, SStr, SElem, SBool, Obj, PList, PDict, zi, zs
 from pyvc.runner import BoundedResult
+from pyvc.world import BytesVal
 from .common import Vals, cls_name
 from .nodekit import NodeKit, trace, val_id, VAL, ERR, KIND
 from .reqkit import Scenario, build, install, frame
@@ -110,6 +111,25 @@ def units(w):
         it.check("post:session-environment-is-a-fresh-child-of-a-per-instance-base-frame", isinstance(e, Obj) and e.fresh and e.fields.get("parent") is b)
         it.check("post:no-module-global-or-class-attribute-written", not [x for x in it.effects if x[0] == "global-write"])
     U.append(Unit("interpreter.py::Interpreter.__init__", s_interp, p_interp, abstractions={"get_base_environment": abs_base}, allowed=()))
+
+    # get_base_environment: every call allocates its own root frame (so the abstraction used above is what the real function does)
+    def s_base(it):
+        K.axioms(it)
+        return [it.fresh_bool("secure"), it.fresh_bool("legacy")], {}, {}
+
+    def p_base(it, c, o):
+        if o.kind == "raise":
+            return
+        r = o.value
+        ok = isinstance(r, Obj) and r.cls is funcs["Environment"]
+        it.check("post:returns-a-root-frame-allocated-by-this-call (not shared with any other caller)", ok and r.fresh and r.fields.get("parent") is None)
+        if ok:
+            m, st = r.fields.get("modules"), r.fields.get("modulestack")
+            it.check("post:with-its-own-empty-module-table-and-load-stack", isinstance(m, PDict) and m.fresh and not m.entries
+                     and isinstance(st, PList) and st.fresh and st.items == [])
+    U.append(Unit("functions.py::get_base_environment", s_base, p_base, allowed=("CklRuntimeError", "CklSyntaxError"),   # (of the abstract base script)
+                  abstractions={"bind_native": lambda it, a, k, n: None, "parse_script": lambda it, a, k, n: K.node("basescript")},
+                  prepare=lambda world: (K.install(world), world.hooks.__setitem__("external_call", lambda it, name, a, k, n: BytesVal(SStr(z3.String("modsrc"))) if "get_data" in name else None))))
 
     # Environment.__init__: a root frame gets its own module table and load stack
     def s_envinit(it):
@@ -275,6 +295,34 @@ def bounded(tier, seed):
             r = run(I, "good")
             if r != ("ok", "41"):
                 fails.append({"id": "bounded:good-module-loads-after-failures", "input": str(seq), "observed": str(r), "expected": "('ok', '41')"})
+        # two instances with the same flags and their own module directories never see each other's modules
+        d2 = os.path.join(d, "second")
+        os.makedirs(d2)
+        with open(os.path.join(d2, "good.ckl"), "w") as f:
+            f.write("def gv = 99;")
+        with open(os.path.join(d2, "only2.ckl"), "w") as f:
+            f.write("def o = 2;")
+        for flags in ((True, False), (True, True), (False, False)):
+            ev += 1
+            I1 = interp.Interpreter(*flags)
+            I2 = interp.Interpreter(*flags)
+            for I, dd in ((I1, d), (I2, d2)):
+                mp = values.ValueList()
+                mp.addItem(values.ValueString(dd))
+                I.base_environment.put("checkerlang_module_path", mp)
+            obs = (run(I1, "good"), )
+            try:
+                obs += (("ok", str(I2.interpret("require good; good->gv", "-"))),)
+            except Exception as e:
+                obs += (("err", repr(e)),)
+            try:
+                obs += (("ok", str(I1.interpret("require only2; only2->o", "-"))),)
+            except errors.CklRuntimeError as e:
+                obs += (("rt", "not found"),)
+            exp = (("ok", "41"), ("ok", "99"), ("rt", "not found"))
+            if obs != exp:
+                fails.append({"id": "bounded:instances-have-separate-module-tables", "input": f"two Interpreter{flags} instances with module directories holding different good.ckl",
+                              "observed": str(obs), "expected": str(exp)})
         seen, uniq = set(), []
         for f in fails:
             if f["id"] not in seen:
